@@ -420,6 +420,10 @@ func pick(t *rapid.T, label string, pool []string) string {
 
 func genField(t *rapid.T, depth int, idx int) fdesc {
 	f := fdesc{Name: fmt.Sprintf("F%d", idx)}
+	if rapid.IntRange(0, 7).Draw(t, "exoticFieldName") == 0 {
+		// exported names need not be ASCII (upper-case letters of two, three and four bytes)
+		f.Name = fmt.Sprintf("%s%d", []string{"É", "Ω", "Ảnh", "Ṣize", "\uff2eame", "Ꭰ", "\U0001d400"}[rapid.IntRange(0, 6).Draw(t, "fieldName")], idx)
+	}
 	k := rapid.IntRange(0, 11).Draw(t, "fieldKind")
 	if depth <= 0 && k >= 8 {
 		k = k % 8
